@@ -79,6 +79,28 @@ def project(js, errors, instance=None, probe_index=False):
             except Exception as e:  # noqa
                 out = type(e).__name__
             rec["idx"].append({"p": tag_path(path), "k": tag_path([k])[0], "out": out})
+        # the same on ONE tree, for every error-free element at any depth, one lookup after the other (earlier lookups only
+        # ever add empty children): walking from the root through nodes with errors and error-free elements alike
+        t2 = js.exceptions.ErrorTree(errors)
+        fresh = {(repr(r["p"]), repr(r["k"])): r["out"] for r in rec["idx"]}
+        for path, k in elements(instance, [])[:40]:
+            if tuple(path + [k]) in errpaths:
+                continue
+            try:
+                node = t2
+                for p in path:
+                    node = node[p]
+            except Exception:  # noqa -- a step of the way failed: that step is an element of its own, judged by its own probe
+                continue
+            try:
+                sub = node[k]
+                out = "empty" if (len(sub) == 0 and not sub.errors) else "nonempty"
+            except Exception as e:  # noqa
+                out = type(e).__name__
+            r = {"p": tag_path(path), "k": tag_path([k])[0], "out": out}
+            if fresh.get((repr(r["p"]), repr(r["k"]))) == out:
+                continue        # (already recorded above from a fresh tree, with the same result)
+            rec["idx"].append(r)
     return rec
 
 
